@@ -300,7 +300,7 @@ def run_replay(pid, path):
     if cfg and os.environ.get("PV_CONFIG") != cfg:
         # configuration-quantified property: replay in an interpreter started with that configuration
         import subprocess
-        configs = getattr(prop, "CONFIGS", None) or getattr(prop, "CONFIGS_THOROUGH", None) or {}
+        configs = dict(getattr(prop, "CONFIGS", None) or {}, **(getattr(prop, "CONFIGS_THOROUGH", None) or {}))
         env = dict(os.environ)
         env.update(configs.get(cfg, {}))
         env["PV_CONFIG"] = cfg
@@ -333,7 +333,7 @@ def main(argv):
     prop = load_prop(pid)
     sys.setrecursionlimit(5000)
     child_out = argv[argv.index("--out") + 1] if "--out" in argv else None
-    configs = getattr(prop, "CONFIGS", None) or (getattr(prop, "CONFIGS_THOROUGH", None) if tier == "thorough" else None)
+    configs = (getattr(prop, "CONFIGS_THOROUGH", None) if tier == "thorough" else None) or getattr(prop, "CONFIGS", None)
     if configs and "--config" not in argv:
         return run_configs(pid, tier, seed, prop, configs, t0)
 
